@@ -134,3 +134,10 @@ func FromTypesItem(it map[string]*mtypes.Item) model.Item {
 	}
 	return out
 }
+
+func boolPtrOrNil(b bool) *bool {
+	if !b {
+		return nil
+	}
+	return &b
+}
